@@ -30,3 +30,59 @@ chk("C05", "model_checking",
     "compared (the property does not fix NO vs BAD); SessionSASL backends are not modelled (PLAIN via Login only).",
     "TLA+ spec + TLC exhaustive check over the configuration product; transition-coverage and depth-bounded replay; trace validation",
     "DESIGN.md 3 (C05)", "tlc+harness/cmd/serverconn")
+
+chk("C04", "model_checking",
+    "ServerFraming.tla specifies, per unit (command x argument as quoted / synchronising / non-synchronising literal x size class below/above "
+    "4096 / above the APPEND limit x benign or command-like payload, plus literals after syntax errors and unknown commands, AUTHENTICATE, IDLE), what a "
+    "conforming server may do (one tagged completion or close; '+' only for an accepted synchronising literal / AUTHENTICATE / IDLE; refused "
+    "non-synchronising literal consumed or connection closed; payload only as the announced argument). TLC enumerates every unit sequence of depth 2 "
+    "(all 117 units, both start states, LITERAL+ on/off; thorough adds depth 3 over the refusal core); each is executed against a real server by a "
+    "mechanical literal-protocol client, the reaction is recorded and ServerFramingTrace judges every record. Independently of the spec the harness "
+    "reports any response to a tag occurring only inside a payload, any backend call with the marker argument, stalls and malformed output.",
+    "Trusts TLC and the harness tokenizer; oversized literals are announced (104857601) but never sent in full; a stall is 3 s of silence on an open connection; "
+    "closing the connection is accepted wherever the property allows it.",
+    "TLA+ spec + TLC enumeration of unit sequences; real-server execution; trace validation with RFC 7888 nondeterminism; direct smuggling monitors",
+    "DESIGN.md 3 (C04)", "tlc+harness/cmd/framing")
+
+chk("C15", "model_checking",
+    "NumSet.tla (state = range list as the code keeps it plus ghost members = union of insertions, over a symbolic domain whose top points stand for "
+    "2^32-2 and 2^32-1, with a gap point so no false adjacency arises) is model-checked exhaustively for canonical form, membership = union, "
+    "Contains/Dynamic agreement, text round trip and ascending exact enumeration. Every transition of the complete bounded graph (AddNum, AddRange in both "
+    "endpoint orders with '*' on either side, AddSet from a catalogue) and every token string up to length 5 (quick) / 7 (thorough) is replayed against "
+    "imapnum.Set, imap.SeqSet and imap.UIDSet and all parse paths, comparing after every op; Nums() runs in a limited child process (non-return is an "
+    "observation). Random 50-op histories and random valid/edited/invalid texts are recorded and NumSetTrace re-judges every record.",
+    "Trusts TLC, the point-to-uint32 table (order- and adjacency-preserving) and the small-scope hypothesis beyond the bounded domain. Nums() is observed "
+    "only for sets of at most 16 elements. internal/imapnum is reached through an overlay-injected re-export package; /repo is not modified.",
+    "TLA+ spec + TLC exhaustive check; complete-graph transition replay and exhaustive parse vectors; child-process termination observation; trace validation",
+    "DESIGN.md 3 (C15)", "tlc+harness/cmd/numset")
+
+chk("C16", "model_checking",
+    "Utf7.tla specifies modified UTF-7 arithmetically (UTF-16/UTF-8, bit packing, base64 alphabet). TLC checks Decode(Encode(s))=s, printable-ASCII output, "
+    "MustAccept = image of Encode, MustAccept/MustReject disjoint, and that a transformer state machine (carried ascii flag, nil/ShortSrc/ShortDst/Invalid, dst "
+    "growth) gives the one-shot result under every buffer schedule and always terminates. Every input of the bounded space (code-point strings up to 3/4, byte "
+    "strings up to 4/5, token strings up to 3/4) is run on the real internal/utf7 one-shot and under 40 explicit Transform schedules against the predicted "
+    "encoding or verdict. Random inputs with random schedules are recorded from the real code and re-evaluated by Utf7Trace.",
+    "Trusts TLC, the overlay shim (a pure re-export) and the harness's transform-contract driver. Compares accumulated output and final verdict, not per-call "
+    "byte counts. Unspecified decoder inputs are only checked for no panic, valid UTF-8 and termination. Strings of 41-200 code points get a Go-side round trip only.",
+    "TLA+ reference operators + transformer state machine, TLC bounded-exhaustive check; exhaustive vector replay under buffer schedules; trace re-evaluation",
+    "DESIGN.md 3 (C16)", "tlc+harness/cmd/utf7")
+
+chk("C19", "model_checking",
+    "TLC model-checks the reference conjunction AndRef of SearchAlg.tla (intersection law, commutation, key folding under every permutation, universe distinguishes "
+    "every bound). Every enumerated criteria pair goes through the real SearchCriteria.And and every sequence of <=2 (quick) / <=3 (thorough) keys of a 25-key catalogue "
+    "goes as a raw SEARCH line through a real imapserver connection; the recorded struct is judged by TLC (SearchAlgTrace) on every message of a universe with a "
+    "message on each side of every bound. Random criteria trees (depth <=3) and key lists (<=8) are recorded and judged the same way.",
+    "Oracle is entirely in TLA+; the harness only builds, calls and records. Bounded-exhaustive over the stated catalogues and random beyond them. ModSeq, '$', "
+    "CHARSET and dynamic '*' sets are excluded; mixed time zones are not generated.",
+    "TLA+ reference operators + TLC-enumerated vectors through the real code; recorded-result validation by TLC",
+    "DESIGN.md 3 (C19)", "tlc+harness/cmd/searchalg")
+
+chk("C20", "model_checking",
+    "ListMatch.tla defines reference resolution and the textbook recursive wildcard matcher over code-point sequences; TLC model-checks sanity lemmas on it over the "
+    "bounded space. TLC enumerates every name <=3/4 over {a,b,/}, pattern <=3/4 over {a,b,/,*,%}, 6 references with and without trailing delimiter, delimiter '/' or none "
+    "(74,880 / 1,134,012 vectors) with the expected answer and the real imapserver.MatchList is run on each. Random vectors of length <=12 (delimiters '/', '.', none, "
+    "non-ASCII; regexp metacharacters; non-ASCII characters) are recorded with the real result and re-evaluated one by one by ListMatchTrace.",
+    "Trusts TLC and the small-scope hypothesis between the exhaustive bounds and the random lengths. An absolute pattern with an empty reference accepts two readings; "
+    "references containing '*' or '%' are outside the explored space; reference resolution is the rule documented by TestMatchList.",
+    "TLA+ reference operators + TLC lemma check; exhaustive bounded vector generation replayed into real code; TLC re-evaluation of recorded random vectors",
+    "DESIGN.md 3 (C20)", "tlc+harness/cmd/listmatch")
